@@ -269,7 +269,8 @@ func (g *docGen) param(i int) jx.Obj {
 			}
 			return jx.Obj{"$ref": "#/nowhere/at/all"}
 		default:
-			return jx.Obj{"$ref": "other.json#/parameters/p"}
+			// a reference to a whole document (no fragment) does not designate a parameter either
+			return jx.Obj{"$ref": Pick(rng, []string{"other.json#/parameters/p", "shared/offset.json", "http://example.com/params/body.json"})}
 		}
 	}
 	return g.inlineParam(i)
